@@ -36,7 +36,7 @@ DMS = [0.0, 1.0, 3.0, 8.0]
 
 def bounds(tier: str) -> dict:
     if tier == "quick":
-        return {"depths": [8, 32, 4], "N": 10, "C": 8, "design": "star: all gulps x 3 ranges + gulps {1,3,N+1} x all ranges"}
+        return {"depths": [8, 32, 4, "1 and 2 on the reduced design"], "N": 10, "C": 8, "design": "star: all gulps x 3 ranges + gulps {1,3,N+1} x all ranges; reduced: all gulps x default range + gulp 3 x all ranges"}
     return {"depths": [8, 32, 4, 1, 2], "N": 12, "C": 8, "design": "full product: gulps 1..N+1,10N x all sub-ranges"}
 
 
@@ -88,10 +88,13 @@ TRANSFORMS = ["invert", "mask", "extract_samps", "extract_chans", "extract_bands
 def shards(tier: str, seed: int) -> list:
     b = bounds(tier)
     out = []
-    combos = [(nbits, b["C"], name) for nbits in b["depths"] for name in TRANSFORMS]
+    combos = [(nbits, b["C"], name) for nbits in b["depths"] if isinstance(nbits, int) for name in TRANSFORMS]
     # an odd channel count (only possible at whole-byte depths)
     combos += [(nbits, 5, name) for nbits in (8, 32) for name in ("invert", "mask", "extract_samps", "extract_chans", "downsample", "subband", "zerodm")]
     combos += [(8, 7, "downsample")]  # factor products such as 7 x 7 = 49
+    if tier == "quick":
+        # the two remaining sub-byte depths on the reduced design (1 bit has its own bit order)
+        combos += [(nbits, b["C"], name) for nbits in (1, 2) for name in TRANSFORMS]
     for nbits, Cc, name in combos:
         if True:
             ps = _params(name, nbits, Cc, b["N"], tier)
@@ -275,7 +278,7 @@ def run_shard(shard: dict, ctx, res, only=None) -> None:
     site = {"invert": "Filterbank.invert_freq", "mask": "Filterbank.apply_channel_mask", "extract_samps": "Filterbank.extract_samps",
             "extract_chans": "Filterbank.extract_chans", "extract_bands": "Filterbank.extract_bands",
             "downsample": "Filterbank.downsample", "subband": "Filterbank.subband", "zerodm": "Filterbank.remove_zerodm"}[name]
-    design = _design(N, "small" if (C in (5, 7) and shard["tier"] == "quick") else shard["tier"])
+    design = _design(N, "small" if ((C in (5, 7) or shard["nbits"] in (1, 2)) and shard["tier"] == "quick") else shard["tier"])
     for p in params:
         for g, st, ns in design:
             if only is not None and [p, g, st, ns] != only:
